@@ -10,8 +10,10 @@
 
   The model talks to a transport `x : σ → Req → σ × Rsp` on decoded messages; the truncation the
   message codec applies to request fields (16-bit ids, 8-bit offset and count) is modelled where
-  the request is built.  Two places where the pinned source differs from what the property needs
-  are a `Variant`: the model runs either way, the check decides by probing the real code.
+  the request is built.  Two places where the pinned source (commit 816fdee) differed from what the
+  property needs are a `Variant`: the model runs either way; the translator reads the variant from
+  the working tree on every run (`Gen.Loops11.variantRead`) and the check also probes the real code.
+  The tree as repaired by 01f2987 / 91e28cb is `Variant.intended`.
   Core Lean only.
 -/
 import PyIpmi.Model.Retry
@@ -109,13 +111,13 @@ try: (next_id, data) = get_fn(reservation_id, record_id, offset, length)
 except CompletionCodeError as e:
     if e.cc == CC_CANT_RET_NUM_REQ_BYTES:
         max_req_len -= 4
-        if max_req_len <= 0: retry = 0          # intended: raise RetryError()
-        # intended: continue
+        if max_req_len <= 0: raise RetryError() # as shipped (816fdee): retry = 0
+        continue                                # as shipped: missing (falls through to the append)
     else: raise CompletionCodeError(e.cc)
 record_data.extend(data[:]); offset = len(record_data)
 if len(record_data) >= record_length: break
 ```
-As shipped, `retry = 0` is followed by `retry -= 1` and never raises; that corner (request size
+As shipped, `retry = 0` was followed by `retry -= 1` and never raised; that corner (request size
 shrunk to ≤ 0) needs five refusals in a row, which a device with a fixed limit that served the
 5-byte header cannot produce; it is outside the as-shipped model (`unmodelled`). -/
 def dataLoop (get : σ → Nat → Nat → σ × Outcome (Nat × List Nat)) (recLen : Nat) :
@@ -142,22 +144,26 @@ def dataLoop (get : σ → Nat → Nat → σ × Outcome (Nat × List Nat)) (rec
       else (st1, .ccError c)
     | (st1, e) => (st1, recast e)
 
-/-- get_sdr_data_helper(reserve_fn, get_fn, record_id, reservation_id) for store `s`. -/
+/-- get_sdr_data_helper after `reservation_id` is settled: the 5-byte header read, then the chunk
+loop for the length the header announces, addressed by the id found in the header. -/
+def getSdrDataWith (s : Store) (st : σ) (id res : Nat) : σ × Outcome (Nat × List Nat) :=
+  match getChunk K v x s st res id 0 XK.hdrLen with
+  | (st1, .ok (nx, d)) =>
+    if d.length < 5 then (st1, .decodingError)   -- the five header pops run out of data
+    else
+      dataLoop XK v (fun st off len => getChunk K v x s st res (hdrId d) off len)
+        (d.getD 4 0 + 5) XK.dataRetry XK.maxReqLen st1 d nx d
+  | (st1, e) => (st1, recast e)
+
+/-- get_sdr_data_helper(reserve_fn, get_fn, record_id, reservation_id) for store `s`:
+`if reservation_id is None: reservation_id = reserve_fn()`, then the read. -/
 def getSdrData (s : Store) (st : σ) (id : Nat) (res? : Option Nat) : σ × Outcome (Nat × List Nat) :=
-  let start : σ × Outcome Nat :=
-    match res? with
-    | some r => (st, .ok r)
-    | none => reserve K x s st
-  match start with
-  | (st0, .ok res) =>
-    match getChunk K v x s st0 res id 0 XK.hdrLen with
-    | (st1, .ok (nx, d)) =>
-      if d.length < 5 then (st1, .decodingError)   -- the five header pops run out of data
-      else
-        dataLoop XK v (fun st off len => getChunk K v x s st res (hdrId d) off len)
-          (d.getD 4 0 + 5) XK.dataRetry XK.maxReqLen st1 d nx d
-    | (st1, e) => (st1, recast e)
-  | (st0, e) => (st0, recast e)
+  match res? with
+  | some r => getSdrDataWith K XK v x s st id r
+  | none =>
+    match reserve K x s st with
+    | (st0, .ok res) => getSdrDataWith K XK v x s st0 id res
+    | (st0, e) => (st0, recast e)
 
 /-- The body of sdr_repository_entries / device_sdr_entries: read record `id`, keep its bytes,
 follow `next_id` until 0xffff.  Python has no bound here; `fuel` counts records (`Hang` when it
@@ -181,5 +187,9 @@ def sdrList (s : Store) (fuel : Nat) (st : σ) : σ × Outcome (List (List Nat))
   | (st0, e) => (st0, recast e)
 
 end
+
+/-- The same transport, also recording every exchange (request, response), oldest first. -/
+def traced {σ : Type} (x : Xport σ) : Xport (σ × List (Req × Rsp)) :=
+  fun st r => (((x st.1 r).1, st.2 ++ [(r, (x st.1 r).2)]), (x st.1 r).2)
 
 end PyIpmi.Model.SdrXfer
